@@ -477,6 +477,8 @@ func runC02(c *Ctx) {
 			c.extrudeShapeCase(pl, sd, i%3 == 0)
 		}
 	}
+	c.extrudeEntryPoints(6 + c.N/20)
+	c.nodeEntryPoints(4 + c.N/40)
 	c.opSequences(c.N)
 	c.otherGenerators(8 + c.N/10)
 }
